@@ -38,6 +38,7 @@ type vfCfg struct {
 	SetBufSize   int   `json:"set_buf_size"`
 	BucketSecs   int64 `json:"bucket_secs"`
 	Keys         int   `json:"keys"`
+	ConflictHash bool  `json:"conflict_hash"` // Config.KeyToHash with distinct primaries and non-zero conflict hashes
 }
 
 type vfCase struct {
